@@ -51,17 +51,17 @@ func (e *Env) MiniSrc(name string, profiles map[string]string) (string, error) {
 		return os.WriteFile(p, []byte(content), 0o644)
 	}
 	files := map[string]string{
-		"apparmor.d/tunables/multiarch.d/profiles": "@{p_systemd}=unconfined\n@{p_systemd_user}=unconfined\n",
-		"apparmor.d/abstractions/gstreamer":        "  abi <abi/4.0>,\n\n  @{bin}/gst-plugin-scanner ix,\n  /usr/share/gstreamer r,\n",
-		"apparmor.d/groups/_full/vfull":            "abi <abi/4.0>,\n\ninclude <tunables/global>\n\n@{exec_path} = @{bin}/vfull\nprofile vfull @{exec_path} {\n  include <abstractions/base>\n\n  @{exec_path} mr,\n\n  include if exists <local/vfull>\n}\n",
-		"dists/flags/main.flags":                   "# flags\n",
-		"dists/ignore/main.ignore":                 "# ignore\napparmor.d/groups/_full\n",
-		"dists/overwrite":                          "# overwrite\n",
-		"dists/ubuntu/abstractions/vubuntu":        "  abi <abi/4.0>,\n",
-		"systemd/default/vunit.service.d/apparmor.conf": "[Service]\nAppArmorProfile=vfull\n",
-		"systemd/early/vearly.service.d/apparmor.conf":  "[Unit]\nAfter=apparmor.service\n",
+		"apparmor.d/tunables/multiarch.d/profiles":       "@{p_systemd}=unconfined\n@{p_systemd_user}=unconfined\n",
+		"apparmor.d/abstractions/gstreamer":              "  abi <abi/4.0>,\n\n  @{bin}/gst-plugin-scanner ix,\n  /usr/share/gstreamer r,\n",
+		"apparmor.d/groups/_full/vfull":                  "abi <abi/4.0>,\n\ninclude <tunables/global>\n\n@{exec_path} = @{bin}/vfull\nprofile vfull @{exec_path} {\n  include <abstractions/base>\n\n  @{exec_path} mr,\n\n  include if exists <local/vfull>\n}\n",
+		"dists/flags/main.flags":                         "# flags\n",
+		"dists/ignore/main.ignore":                       "# ignore\napparmor.d/groups/_full\n",
+		"dists/overwrite":                                "# overwrite\n",
+		"dists/ubuntu/abstractions/vubuntu":              "  abi <abi/4.0>,\n",
+		"systemd/default/vunit.service.d/apparmor.conf":  "[Service]\nAppArmorProfile=vfull\n",
+		"systemd/early/vearly.service.d/apparmor.conf":   "[Unit]\nAfter=apparmor.service\n",
 		"systemd/full/vfullunit.service.d/apparmor.conf": "[Service]\nAppArmorProfile=vfull\n",
-		"share/README": "share\n",
+		"share/README":                                   "share\n",
 	}
 	for k, v := range files {
 		if err := w(k, v); err != nil {
@@ -77,10 +77,10 @@ func (e *Env) MiniSrc(name string, profiles map[string]string) (string, error) {
 }
 
 type ExtTables struct {
-	Chains   map[string]map[string][]string          `json:"chains"`
-	Tok      map[string]map[string]string            `json:"tok"`
-	PermInfo map[string]map[string]any               `json:"perminfo"`
-	KeyInfo  map[string]map[string]any               `json:"keyinfo"`
+	Chains   map[string]map[string][]string `json:"chains"`
+	Tok      map[string]map[string]string   `json:"tok"`
+	PermInfo map[string]map[string]any      `json:"perminfo"`
+	KeyInfo  map[string]map[string]any      `json:"keyinfo"`
 }
 
 func chainKey(c Cfg) string {
